@@ -142,10 +142,10 @@ func TestVerifC07(t *testing.T) {
 		c07Scenario("tdc-tcp-c1-writefail", tOpt{Kind: "tdc-tcp", Callers: 1, Seq: 2, Srv: srvOpt{AnswerAll: true}, WriteFailNth: 1}, d, 0, false),
 		c07Scenario("pipeline-tcp-c2-dialfaults-closer", tOpt{Kind: "pipeline-tcp", Callers: 2, Srv: srvOpt{AnswerAll: true}, DialMenu: []int{0, 1, 2}, Closer: true}, dt, 0, false),
 		c07Scenario("pipeline-tcp-c1-dialhang-cancel", tOpt{Kind: "pipeline-tcp", Callers: 1, Srv: srvOpt{AnswerAll: true}, DialMenu: []int{0, 2}, CtxMode: []int{2}}, d, 0, false),
-		c07Scenario("pipeline-tcp-c1-seq2-cancel-during-dial", tOpt{Kind: "pipeline-tcp", Callers: 1, Seq: 2, Srv: srvOpt{AnswerAll: true}, CtxMode: []int{2}}, d, 0, false),
+		c07Scenario("pipeline-tcp-c1-seq2-cancel-during-dial", tOpt{Kind: "pipeline-tcp", Callers: 1, Seq: 2, Srv: srvOpt{AnswerAll: true}, CtxMode: []int{2}}, dt, 0, false),
 		c07Scenario("pipeline-tcp-c2-cancel-during-dial-closer", tOpt{Kind: "pipeline-tcp", Callers: 2, Srv: srvOpt{AnswerAll: true}, CtxMode: []int{2, 0}, Closer: true}, dt, 0, false),
 		c07Scenario("pipeline-tcp-c2-dialstuck-closer", tOpt{Kind: "pipeline-tcp", Callers: 2, Srv: srvOpt{AnswerAll: true}, DialMenu: []int{0, 3}, Closer: true}, dt, 0, false),
-		c07Scenario("pipeline-tcp-c2-seq2-peerclosed", tOpt{Kind: "pipeline-tcp", Callers: 2, Seq: 2, Srv: srvOpt{AnswerAll: true}, DialMenu: []int{0, 4}, CtxMode: []int{1, 1}}, dt, 0, false),
+		c07Scenario("pipeline-tcp-c2-seq2-peerclosed", tOpt{Kind: "pipeline-tcp", Callers: 2, Seq: 2, Srv: srvOpt{AnswerAll: true}, DialMenu: []int{0, 4}, CtxMode: []int{1, 1}}, dt-1, 0, false),
 		c07Scenario("reuse-c2-dial-vs-closer", tOpt{Kind: "reuse", Callers: 2, Srv: srvOpt{AnswerAll: true}, Closer: true, CtxMode: []int{1, 1}}, d, 0, false),
 		c07Scenario("pipeline-udp-c1-faults-deadline", tOpt{Kind: "pipeline-udp", Callers: 1, Srv: faults, CtxMode: []int{1}}, dt, 0, false),
 		c07Scenario("reuse-c2-closer-srvclose", tOpt{Kind: "reuse", Callers: 2, Srv: srvOpt{CloseBudget: 1, Silent: true}, Closer: true}, dt, 0, false),
